@@ -565,7 +565,8 @@ func execHist(ops []string, mon *Mon) []string {
 				after := histSnap(sh)
 				if statErr == nil && !fileIsTool {
 					// a file this code did not write (hand-made content)
-					if fi, e := os.Stat(path); err == nil && e == nil && fi.Size() > 0 {
+					// (a load that reports an error but still changed the state counts as accepted content)
+					if fi, e := os.Stat(path); e == nil && fi.Size() > 0 && (err == nil || !histSameEntries(before, after, true)) {
 						mon.Tag("loadraw-accepted")
 						tsTrusted = len(after) == 0
 						overlong = len(after) > sh.MaxSize
